@@ -487,6 +487,12 @@ def _clone_with_map(node, mapping):
 # generators of cases (exhaustive small shapes, then seeded random)
 
 ATOMS = [C(None), C(True), C(False), C(0), C(1), C(2), C(""), C("a")]
+
+
+def R(term):
+    """mark a case drawn from the run's seeded PRNG (correspondence + semantics only, never the oracle sweep)"""
+    return ("rnd", term)
+
 F0 = ("call", 0, [])
 F1 = ("call", 1, [])
 
@@ -495,27 +501,27 @@ def F2(a):
     return ("call", 2, [a])
 
 
-def gen_singleton(tier, rnd):
+def gen_singleton(tier, rnd, det):
     ls = [N(1), C(None), F0]
     cs = [C(None), C(True), C(False), C(0), N(2)]
     out = [("cmp", l, [("op", o, c)]) for l in ls for o in OPS for c in cs]
     for _ in range(150 if tier == "quick" else 2000):
         n = rnd.randint(2, 3)
-        out.append(("cmp", rnd.choice(ls), [("op", rnd.choice(OPS), rnd.choice(cs + [F0])) for _ in range(n)]))
+        out.append(R(("cmp", rnd.choice(ls), [("op", rnd.choice(OPS), rnd.choice(cs + [F0])) for _ in range(n)])))
     return out
 
 
-def gen_dup_set(tier, rnd):
+def gen_dup_set(tier, rnd, det):
     el = [C(1), C(True), C(0), C(False), C(None), C("a"), N(1), F0, ("star", N(2))]
     out = []
     for n in (1, 2, 3):
         out += [("seq", "KSet", list(c)) for c in itertools.product(el, repeat=n)]
     for _ in range(300 if tier == "quick" else 5000):
-        out.append(("seq", "KSet", [rnd.choice(el + [C(2), C(""), C(1)]) for _ in range(rnd.randint(4, 6))]))
+        out.append(R(("seq", "KSet", [rnd.choice(el + [C(2), C(""), C(1)]) for _ in range(rnd.randint(4, 6))])))
     return out
 
 
-def gen_dup_dict(tier, rnd):
+def gen_dup_dict(tier, rnd, det):
     keys = [C(1), C(True), C(2), C("a"), N(1)]
     vals = [C(0), N(2), F0, C("a")]
     ent = [("kv", k, v) for k in keys for v in vals] + [("dstar", N(3))]
@@ -524,13 +530,13 @@ def gen_dup_dict(tier, rnd):
         out += [("dict", list(c)) for c in itertools.product(ent, repeat=n)]
     small = [("kv", k, v) for k in (C(1), C(True), C(2)) for v in (C(0), N(2), F0)] + [("dstar", N(3)), ("kv", N(1), C(0))]
     tri = [("dict", list(c)) for c in itertools.product(small, repeat=3)]
-    out += tri if tier != "quick" else rnd.sample(tri, 400)
+    out += tri if tier != "quick" else det.sample(tri, 400)
     for _ in range(400 if tier == "quick" else 6000):
-        out.append(("dict", [rnd.choice(small) for _ in range(rnd.randint(4, 6))]))
+        out.append(R(("dict", [rnd.choice(small) for _ in range(rnd.randint(4, 6))])))
     return out
 
 
-def gen_enumerate(tier, rnd):
+def gen_enumerate(tier, rnd, det):
     out = []
     elts = [N(2), F2(N(2)), ("seq", "KTuple", [N(0), N(2)])]
     tgts = [("ttup", [0, 2]), ("ttup", [1, 2]), ("ttup", [0, 0]), ("tname", 2), ("ttup", [0, 2, 1]), ("ttup", [2, 0])]
@@ -548,7 +554,7 @@ def gen_enumerate(tier, rnd):
     return out
 
 
-def gen_zip(tier, rnd):
+def gen_zip(tier, rnd, det):
     out = []
     names = [0, 1, 2]
     args = [N(3), N(4), F1, N(5)]
@@ -559,12 +565,12 @@ def gen_zip(tier, rnd):
             for m in (n, n + 1) if n < 3 else (n,):
                 pool = list(itertools.product(args, repeat=m))
                 if tier == "quick" and len(pool) > 16:
-                    pool = rnd.sample(pool, 16)
+                    pool = det.sample(pool, 16)
                 for a in pool:
-                    z = rnd.choice(zs) if tier == "quick" else None
+                    z = det.choice(zs) if tier == "quick" else None
                     for zf in ([z] if z else zs):
-                        out.append(("comp", rnd.choice(["CList", "CSet", "CGen"]), rnd.choice(elts), DUMMY,
-                                    ("ttup", list(xs)), ("bi", zf, list(a)), rnd.choice([[], [N(2)]])))
+                        out.append(("comp", det.choice(["CList", "CSet", "CGen"]), det.choice(elts), DUMMY,
+                                    ("ttup", list(xs)), ("bi", zf, list(a)), det.choice([[], [N(2)]])))
     for _ in range(60 if tier == "quick" else 600):
         xs = [rnd.choice(names) for _ in range(rnd.randint(2, 3))]
         a = [rnd.choice(args) for _ in xs]
@@ -572,8 +578,8 @@ def gen_zip(tier, rnd):
         if extra and extra[0][0] == "star":
             a = a[:-1] + extra
             extra = []
-        out.append(("comp", "CDict", N(2), F0, ("ttup", xs), ("bi", rnd.choice(zs), a + extra), []))
-        out.append(("comp", "CList", N(0), DUMMY, ("ttup", xs), ("bi", "BZip", a), []))
+        out.append(R(("comp", "CDict", N(2), F0, ("ttup", xs), ("bi", rnd.choice(zs), a + extra), [])))
+        out.append(R(("comp", "CList", N(0), DUMMY, ("ttup", xs), ("bi", "BZip", a), [])))
     return out
 
 
@@ -582,7 +588,7 @@ CH_KWS = [[], [("kw", 0, C(True))], [("kw", 0, N(2))], [("kw", 1, N(2))], [("kw"
           [("kw", 1, N(2)), ("kw", 0, C(0))], [("kw", 0, F0)]]
 
 
-def gen_chained(tier, rnd):
+def gen_chained(tier, rnd, det):
     out = []
     inner_args = [N(1), F1, ("star", N(1))]
     for o, i in itertools.product(CH_BI, repeat=2):
@@ -591,7 +597,7 @@ def gen_chained(tier, rnd):
         for ok, ik in itertools.product(CH_KWS, repeat=2):
             if not ok and not ik:
                 continue
-            if tier == "quick" and ok and ik and rnd.random() < 0.8:
+            if tier == "quick" and ok and ik and det.random() < 0.8:
                 continue
             out.append(("bi", o, [("bi", i, [N(1)] + ik)] + ok))
     for a, b, c in itertools.product(CH_BI, repeat=3):
@@ -604,11 +610,14 @@ def gen_chained(tier, rnd):
         t = rnd.choice(inner_args[:2])
         for d in range(rnd.randint(3, 5)):
             t = ("bi", rnd.choice(CH_BI), [t] + (rnd.choice(CH_KWS) if rnd.random() < 0.3 else []))
-        out.append(t)
+        out.append(R(t))
+    deep = ["BList", "BIter", "BReversed", "BSorted"] + (["BSet", "BTuple", "BSum"] if tier != "quick" else [])
+    for a, b, c, d in itertools.product(deep, repeat=4):     # several passes of the rule interact here
+        out.append(("bi", a, [("bi", b, [("bi", c, [("bi", d, [N(1)])])])]))
     return out
 
 
-def gen_chain_casts(tier, rnd):
+def gen_chain_casts(tier, rnd, det):
     out = []
     args = [N(1), N(2), F1, ("star", N(1))]
     for o in ["BList", "BSet", "BIter", "BTuple", "BSorted", "BSum"]:
@@ -620,7 +629,7 @@ def gen_chain_casts(tier, rnd):
     return out
 
 
-def gen_comp_casts(tier, rnd):
+def gen_comp_casts(tier, rnd, det):
     out = []
     for f in ["BList", "BSet", "BIter", "BDict", "BTuple", "BSorted"]:
         for ck in ("CList", "CSet", "CGen", "CDict"):
@@ -633,16 +642,16 @@ def gen_comp_casts(tier, rnd):
     return out
 
 
-def gen_negated(tier, rnd):
+def gen_negated(tier, rnd, det):
     xs = [N(1), C(1), C(True), C("a"), F0, C(None), N(2), C(0)]
     out = [("not", ("cmp", l, [("op", o, r)])) for l in xs for o in OPS for r in xs]
     for _ in range(100 if tier == "quick" else 1000):
-        out.append(("not", ("cmp", rnd.choice(xs), [("op", rnd.choice(OPS), rnd.choice(xs)) for _ in range(2)])))
+        out.append(R(("not", ("cmp", rnd.choice(xs), [("op", rnd.choice(OPS), rnd.choice(xs)) for _ in range(2)]))))
     out += [("cmp", N(1), [("op", "Lt", C(1))]), ("not", N(1)), ("not", ("not", ("cmp", N(1), [("op", "Lt", C(1))])))]
     return out
 
 
-def gen_unpacks(tier, rnd):
+def gen_unpacks(tier, rnd, det):
     el = [C(1), N(1), ("star", ("seq", "KList", [C(1), F0])), ("star", ("seq", "KTuple", [C(1), C(2)])),
           ("star", ("seq", "KSet", [C(1), C(2)])), ("star", ("seq", "KSet", [C(1)])), ("star", ("dict", [])),
           ("star", ("dict", [("kv", C(1), C(2))])), ("star", ("dict", [("kv", C(1), F0)])),
@@ -656,11 +665,11 @@ def gen_unpacks(tier, rnd):
         for n in (1, 2):
             out += [("seq", k, list(c)) for c in itertools.product(el, repeat=n)]
         for _ in range(150 if tier == "quick" else 3000):
-            out.append(("seq", k, [rnd.choice(el) for _ in range(rnd.randint(3, 4))]))
+            out.append(R(("seq", k, [rnd.choice(el) for _ in range(rnd.randint(3, 4))])))
     return out
 
 
-def gen_dict_unpacks(tier, rnd):
+def gen_dict_unpacks(tier, rnd, det):
     it = [("kv", C(1), C(0)), ("kv", N(1), F0), ("dstar", N(2)), ("dstar", ("dict", [("kv", C(1), C(2))])),
           ("dstar", ("dict", [])), ("dstar", ("dict", [("kv", C(1), F0), ("kv", C(True), C(0))])),
           ("dstar", ("dict", [("dstar", N(2))])), ("kv", C(True), C("a")),
@@ -669,11 +678,11 @@ def gen_dict_unpacks(tier, rnd):
     for n in (1, 2):
         out += [("dict", list(c)) for c in itertools.product(it, repeat=n)]
     tri = [("dict", list(c)) for c in itertools.product(it, repeat=3)]
-    out += tri if tier != "quick" else rnd.sample(tri, 250)
+    out += tri if tier != "quick" else det.sample(tri, 250)
     return out
 
 
-def gen_literals(tier, rnd):
+def gen_literals(tier, rnd, det):
     lc = ("comp", "CList", N(2), DUMMY, ("tname", 2), N(3), [])
     args = [None, ("seq", "KList", [C(1), N(1)]), ("seq", "KTuple", [C(1), F0]), ("seq", "KSet", [C(1), C(2)]),
             ("seq", "KList", []), ("seq", "KTuple", []), ("seq", "KList", [("star", N(1))]), lc,
@@ -690,7 +699,7 @@ def gen_literals(tier, rnd):
     return out
 
 
-def gen_starred(tier, rnd):
+def gen_starred(tier, rnd, det):
     out = []
     for k in ("KList", "KTuple", "KSet"):
         for ck in ("CList", "CSet", "CGen", "CDict"):
@@ -758,7 +767,14 @@ def _reversed_sorted_type(case):
     return case["source"].startswith("y = reversed(sorted(") and "iterator" in case["before"] and "iterator" not in case["after"]
 
 
+def _mutated_shared_node(case):
+    """reversed(sorted(..)) below another redundant call: loop 3 edits the sorted() node that loop 1 yielded"""
+    src = case["source"]
+    return "reversed(sorted(" in src and not src.startswith("y = reversed(sorted(")
+
+
 SIGS = {
+    "shared_node_mutation": ("performance.remove_redundant_chained_calls", _mutated_shared_node),
     "custom_eq_none": ("fixes.singleton_eq_comparison", _has_obj),
     "zip_length": ("fixes.unused_zip_args", _zip_lengths),
     "sort_stability": ("performance.remove_redundant_chained_calls", _stability),
@@ -865,9 +881,15 @@ def check(run, mods, wd, rnd) -> dict:
     all_cases = []
     fired_sources = {}
     skipped = 0
+    import random as _random
+    det = _random.Random(20260928)       # sampling inside the deterministic families does not depend on VERIF_SEED
+    random_sources = set()
     for rid, gen in GENERATORS.items():
-        cases = gen(tier, rnd)
+        cases = gen(tier, rnd, det)
         for term in cases:
+            seeded = term[0] == "rnd"
+            if seeded:
+                term = term[1]
             try:
                 source, cands, ignored = impl_root_yields(mods, rid, term)
             except Unsupported as e:
@@ -880,6 +902,10 @@ def check(run, mods, wd, rnd) -> dict:
             hist[f"{rid}:{'fired' if cands else 'silent'}"] += 1
             if cands:
                 fired_sources.setdefault((rid, source), term)
+                if seeded:
+                    random_sources.add((rid, source))
+                else:
+                    random_sources.discard((rid, source))
     timings["impl_yields_s"] = round(time.time() - t0, 1)
     crashes = [c for c in all_cases if c[2] and c[2][0][0] == "crash"]
     items = [c for c in all_cases if not (c[2] and c[2][0][0] == "crash")]
@@ -957,6 +983,8 @@ def check(run, mods, wd, rnd) -> dict:
     kf = common.load_findings("C02")
     failures, reproduced = [], {}
     for (rid, source), term in fired_sources.items():
+        if (rid, source) in random_sources:
+            continue          # the sweep is seed-independent (DESIGN 0.1 "Stability")
         site = ".".join(RULES[rid])
         fails, new = oracle_case(mods, rid, source, envs)
         for f in fails:
@@ -1002,7 +1030,8 @@ def check(run, mods, wd, rnd) -> dict:
         "modelled_rules": [".".join(v) for v in RULES.values()],
         "histogram": dict(hist), "semantic_cases": len(sem), "semantic_gaps": sem_gap,
         "semantic_mismatches": len(sem_bad), "correspondence_disagreements": len(disagreements),
-        "oracle_failures": len(failures), "skipped_unsupported": skipped, "witness_programs": n_wit, "timings_cumulative": timings,
+        "oracle_failures": len(failures), "oracle_sources": len(fired_sources) - len(random_sources),
+        "seeded_random_fired": len(random_sources), "skipped_unsupported": skipped, "witness_programs": n_wit, "timings_cumulative": timings,
     }
 
 
